@@ -136,6 +136,11 @@ ROUTINES = ["hutch", "hutch", "diag_hutch", "trace_hutch", "slq", "lanczos_defau
 
 
 def gen(tier, rng, shard, nshards):
+    if shard < 4:
+        # draws of more than 2**20 numbers in one request (a probe block for an operator with more than 10486 rows; a start
+        # vector longer than 2**20): chunked or otherwise special-cased generation must still leave the global state alone
+        yield {"mode": "routine", "routine": ["hutch_big", "lanczos_big", "hutch_big", "arnoldi_big"][shard], "seed": S.seed(rng),
+               "key": int(rng.integers(0, 2**31 - 1)), "n": 3, "k": 0, "rand": S.pick(rng, ["normal", "rademacher"]), "max_iters": 1, "tol": 0.5}
     for i in range(SIZES[tier]):
         r = rng.random()
         if r < 0.45:
@@ -172,6 +177,19 @@ def call_routine(name, M, key, case):
     from cola import linalg as L
     n = M.shape[0]
     A = cola.ops.Dense(M.copy())
+    if name == "hutch_big":
+        from cola.linalg.trace.diagonal_estimation import hutchinson_diag_estimate
+        D = cola.ops.Diagonal(np.linspace(1.0, 2.0, 12001))
+        return hutchinson_diag_estimate(D, k=0, bs=100, tol=0.5, max_iters=1, rand=case.get("rand", "normal"), key=key)[0]
+    if name in ("lanczos_big", "arnoldi_big"):
+        D = cola.ops.Diagonal(np.linspace(1.0, 2.0, (1 << 20) + 5))
+        if name == "lanczos_big":
+            from cola.linalg.decompositions.lanczos import lanczos
+            Q, T, _ = lanczos(cola.SelfAdjoint(D), max_iters=2, key=key)
+            return Q, T
+        from cola.linalg.decompositions.arnoldi import arnoldi
+        Q, H, _ = arnoldi(D, max_iters=2, key=key)
+        return Q, H
     if name == "hutch":
         from cola.linalg.trace.diagonal_estimation import hutchinson_diag_estimate
         k = case.get("k", 0) if abs(case.get("k", 0)) < n else 0
